@@ -51,6 +51,13 @@ pub fn any_i32(_name: &str) -> i32 { next_val("i32").parse().unwrap() }
 pub fn any_i64(_name: &str) -> i64 { next_val("i64").parse().unwrap() }
 pub fn any_u8(_name: &str) -> u8 { next_val("u8").parse().unwrap() }
 pub fn any_u64(_name: &str) -> u64 { next_val("u64").parse().unwrap() }
+/// uninterpreted hash: one solver-chosen u64 per distinct byte content (same content, same digest)
+static HASHES: Mutex<Vec<(Vec<u8>, u64)>> = Mutex::new(Vec::new());
+pub fn hash_u64(bytes: &[u8]) -> u64 {
+    { let g = HASHES.lock().unwrap(); for (b, h) in g.iter() { if b.as_slice() == bytes { return *h; } } }
+    let h: u64 = next_val("u64").parse().unwrap();
+    HASHES.lock().unwrap().push((bytes.to_vec(), h)); h
+}
 pub fn any_u128(_name: &str) -> u128 { next_val("u128").parse().unwrap() }
 pub fn any_usize(_name: &str) -> usize { next_val("usize").parse().unwrap() }
 pub fn any_bool(_name: &str) -> bool { next_val("bool") == "true" }
